@@ -27,9 +27,12 @@
 (* Named deviations (the pinned commit's behaviour):                       *)
 (*   "dir_temp_listed"       _lsdir also lists staging directories         *)
 (*   "dir_remove_then_rename" the final directory is removed before the    *)
-(*                           staging directory is renamed onto it (always   *)
-(*                           on in the code; off = an idealised atomic      *)
-(*                           replacement, to show the model is sensitive)   *)
+(*                           staging directory is renamed onto it (off =    *)
+(*                           the entry is replaced in one step: since fix   *)
+(*                           `overwrites an existing entry file by file`    *)
+(*                           the code moves each staged file over its       *)
+(*                           predecessor with os.replace, which for the     *)
+(*                           one output file of the model is one step)      *)
 (*   "dir_delete_in_place"   a directory is deleted file by file in place  *)
 (*                           (off = renamed away first)                     *)
 (*   "asdict_keyerror_escapes" __asdict__ lets the KeyError of an entry    *)
